@@ -406,6 +406,13 @@ func fieldName(v ssa.Value) string {
 	if !ok {
 		return "?"
 	}
+	if len(fieldAlias) > 0 {
+		if k, ok := rawOwnerKey(v); ok {
+			if a, moved := fieldAlias[k]; moved {
+				return a.name
+			}
+		}
+	}
 	return st.Field(idx).Name()
 }
 
